@@ -1353,10 +1353,13 @@ package dig
 //@   ensures[C03:building-a-decorator-runs-nothing] $nrun == old($nrun) && $ncb == old($ncb)
 
 //@ func findResultKeys(r) (keys, err)
-//@   trusted
-//@   allocates
+//@   requires treeInv()
+//@   allocates plain
 //@   ensures err == nil ==> fresh(keys) || len(keys) == 0
 //@   ensures treeInv()
+//@   ensures[C12:looking-for-the-decorated-keys-changes-nothing,C06:looking-for-the-decorated-keys-changes-nothing] unchangedAll()
+//@   loop for len(q) > 0 #1: invariant (cap(keys) == 0 || fresh(keys)) && (cap(q) == 0 || fresh(q)) && unchangedAll()
+//@   loop range innerResult.Fields #1: invariant (cap(q) == 0 || fresh(q)) && unchangedAll()
 
 //@ func (s *Scope) Decorate(decorator, opts) (err)
 //@   loop range keys #2: complete[C12:registered-for-every-key]
